@@ -1478,3 +1478,26 @@ def readsigtext(tier, seed, ci, nc, count=6000):
 
 
 STREAMS['readsigtext'] = readsigtext
+
+
+def examine(tier, seed, ci, nc, count=1500):
+    """call graphs in which every function forwards to one callee (or to a terminal function), plain and modifiers-decorated:
+    the guard events of the real `_examine_once` vs Model/Examine.examineTrace — every graph of up to 3 functions, then
+    random ones of 4 to 7"""
+    rng = _rng(seed, 'examine', ci)
+
+    def gen():
+        for n in (1, 2, 3):
+            for succ in itertools.product(range(n + 1), repeat=n):
+                for hinted in itertools.product((False, True), repeat=n):
+                    for f in range(n):
+                        yield ('examine', n, f, succ, hinted)
+        for _ in range(count if tier == 'thorough' else count // 5):
+            n = rng.randint(4, 7)
+            succ = tuple(rng.randint(0, n) for _ in range(n))
+            hinted = tuple(rng.random() < 0.4 for _ in range(n))
+            yield ('examine', n, rng.randrange(n), succ, hinted)
+    return _slice(gen(), ci, nc)
+
+
+STREAMS['examine'] = examine
